@@ -308,6 +308,8 @@ package lua
 //@ noraise
 //@ ensures  uvsValid(ls) && Inv_reg(ls.reg) && ls.reg == old(ls.reg) && ls.reg.top == old(ls.reg.top) && ls.reg.array == old(ls.reg.array)
 //@ ensures  forall k int :: 0 <= k && k < len(ls.reg.array) ==> ls.reg.array[k] == old(ls.reg.array[k])
+// (the functional clause "every list element at or above idx ends closed with its register's value" needs an inductive
+//  reachability argument the solvers did not discharge within the time limit; it is NOT claimed - see DESIGN.md)
 //@ modifies ls.uvcache, type Upvalue.next, type Upvalue.closed, type Upvalue.value
 //@ loop 1 invariant uvsValid(ls)
 
@@ -485,3 +487,73 @@ package lua
 //@ ensures  "operands": callargLV(old(ncalls()), 1) == old(R(L, opB(inst))) && callargStr(old(ncalls()), 2) == old(RKs(L, opC(inst)))
 //@ ensures  "result": R(L, opA(inst)) == callresLV(old(ncalls()), 0) && R(L, opA(inst) + 1) == old(R(L, opB(inst)))
 //@ modifies everything
+
+// NOTE: inList(h, u) is reachability through `next` in the heap AT FUNCTION ENTRY (its defining axiom is stated over the entry
+// heap); as a term it does not depend on the current state, so it can be used with loop-carried locals.
+// ---------------------------------------------------------------------------
+// Upvalues (C03), functional level. The open-upvalue list of a thread: reachable from ls.uvcache through next,
+// strictly increasing register index, every element open and pointing into this thread's registry.
+// ---------------------------------------------------------------------------
+
+//@ uninterp inList(h *Upvalue, u *Upvalue) bool
+//@ axiom inList_def : forall h *Upvalue, u *Upvalue :: inList(h, u) <==> (h != nil && (h == u || inList(h.next, u)))
+//@ define Inv_uvlist(ls *LState) bool = (forall u *Upvalue :: inList(ls.uvcache, u) ==> u != nil && allocated(u) && !u.closed && u.reg == ls.reg && 0 <= u.index) && (forall u *Upvalue, w *Upvalue :: inList(ls.uvcache, u) && inList(u.next, w) ==> u.index < w.index)
+
+//@ func (*Upvalue).Value [C03 C07]
+//@ requires uv != nil && (!uv.closed && uv.reg != nil ==> Inv_reg(uv.reg) && 0 <= uv.index && uv.index < len(uv.reg.array))
+//@ noraise
+//@ ensures  result == ite(uv.closed || uv.reg == nil, uv.value, uv.reg.array[uv.index])
+//@ modifies nothing
+
+//@ func (*Upvalue).Close [C03 C07]
+//@ requires uv != nil && (!uv.closed && uv.reg != nil ==> Inv_reg(uv.reg) && 0 <= uv.index && uv.index < len(uv.reg.array))
+//@ noraise
+//@ ensures  uv.closed && uv.value == old(ite(uv.closed || uv.reg == nil, uv.value, uv.reg.array[uv.index])) && uv.next == old(uv.next) && uv.index == old(uv.index) && uv.reg == old(uv.reg)
+//@ modifies uv.closed, uv.value
+
+//@ func (*Upvalue).SetValue [C03 C07]
+//@ requires uv != nil && (!uv.closed && uv.reg != nil ==> Inv_reg(uv.reg) && 0 <= uv.index && uv.index < uv.reg.top)
+//@ noraise
+//@ ensures  old(uv.closed || uv.reg == nil) ==> uv.value == value
+//@ ensures  old(!uv.closed && uv.reg != nil) ==> uv.reg.array[uv.index] == value && uv.reg.top == old(uv.reg.top) && (forall k int :: 0 <= k && k < uv.reg.top && k != uv.index ==> uv.reg.array[k] == old(uv.reg.array[k]))
+//@ ensures  uv.closed == old(uv.closed) && uv.reg == old(uv.reg) && uv.index == old(uv.index) && uv.next == old(uv.next)
+//@ modifies uv.value, uv.reg.array, uv.reg.top, uv.reg.array[*]
+
+// findUpvalue(idx): the open upvalue for register idx - THE existing one if the list has it (closures created in one
+// activation share it), else a fresh one inserted in order; no other element changes.
+//@ func (*LState).findUpvalue [C03]
+//@ requires ls != nil && Inv_uvlist(ls) && idx >= 0
+//@ noraise
+//@ ensures  result != nil && !result.closed && result.index == idx && result.reg == ls.reg
+//@ ensures  "shared": forall u *Upvalue :: old(inList(ls.uvcache, u)) && u.index == idx ==> result == u
+//@ ensures  "fresh-otherwise": (forall u *Upvalue :: old(inList(ls.uvcache, u)) ==> u.index != idx) ==> fresh(result)
+//@ ensures  "others-untouched": forall u *Upvalue :: old(inList(ls.uvcache, u)) ==> u.index == old(u.index) && u.closed == old(u.closed) && u.reg == old(u.reg) && u.value == old(u.value)
+//@ modifies ls.uvcache, type Upvalue.next
+//@ loop 1 invariant (forall u *Upvalue :: inList(uv, u) ==> inList(ls.uvcache, u)) && (prev == nil || (inList(ls.uvcache, prev) && prev.next == uv && prev.index < idx)) && (prev == nil ==> uv == ls.uvcache) && next == nil
+//@ loop 1 invariant forall u *Upvalue :: inList(ls.uvcache, u) && !inList(uv, u) ==> u.index < idx
+
+//@ define upvals(L *LState) []*Upvalue = L.currentFrame.Fn.Upvalues
+//@ define uvOK(L *LState, u *Upvalue) bool = u != nil && (!u.closed && u.reg != nil ==> u.reg == L.reg && 0 <= u.index && u.index < L.reg.top)
+
+//@ func jumpTable[OP_GETUPVAL] [C01 C03 C07]
+//@ requires Frame(L) && offset(upvals(L)) == 0 && opA(inst) < nreg(L) && opB(inst) < len(upvals(L)) && uvOK(L, upvals(L)[opB(inst)])
+//@ noraise
+//@ ensures  result == 0 && Frame(L) && pc(L) == old(pc(L))
+//@ ensures  R(L, opA(inst)) == old(ite(upvals(L)[opB(inst)].closed || upvals(L)[opB(inst)].reg == nil, upvals(L)[opB(inst)].value, L.reg.array[upvals(L)[opB(inst)].index])) && topAtLeast(L, lb(L) + opA(inst) + 1)
+//@ ensures  keptExcept(L, lb(L) + opA(inst), lb(L) + opA(inst) + 1)
+//@ modifies L.reg.array, L.reg.top, L.reg.array[*]
+
+//@ func jumpTable[OP_SETUPVAL] [C01 C03 C07]
+//@ requires Frame(L) && offset(upvals(L)) == 0 && opA(inst) < nreg(L) && lb(L) + opA(inst) < top(L) && opB(inst) < len(upvals(L)) && uvOK(L, upvals(L)[opB(inst)])
+//@ noraise
+//@ ensures  result == 0 && pc(L) == old(pc(L))
+//@ ensures  old(upvals(L)[opB(inst)].closed || upvals(L)[opB(inst)].reg == nil) ==> old(upvals(L)[opB(inst)]).value == old(R(L, opA(inst)))
+//@ ensures  old(!upvals(L)[opB(inst)].closed && upvals(L)[opB(inst)].reg != nil) ==> L.reg.array[old(upvals(L)[opB(inst)].index)] == old(R(L, opA(inst))) && top(L) == old(top(L)) && (forall k int :: 0 <= k && k < top(L) && k != old(upvals(L)[opB(inst)].index) ==> L.reg.array[k] == old(L.reg.array[k]))
+//@ modifies type Upvalue.value, type registry.array, type registry.top, elems(LValue)
+
+// OP_CLOSE: thin (the inlined closeUpvalues copy is checked against closeUpvalues' contract)
+//@ func jumpTable[OP_CLOSE] [C03 C07]
+//@ requires Frame(L) && opA(inst) < nreg(L) && uvsValid(L)
+//@ noraise
+//@ ensures  result == 0 && pc(L) == old(pc(L)) && uvsValid(L)
+//@ modifies L.uvcache, type Upvalue.next, type Upvalue.closed, type Upvalue.value
